@@ -1141,7 +1141,11 @@ class PDFCIDFont(PDFFont):
             # writing mode: vertical
             widths2 = get_widths2(list_value(spec.get("W2", [])))
             self.disps = {cid: (vx, vy) for (cid, (_, (vx, vy))) in widths2.items()}
-            (vy, w) = resolve1(spec.get("DW2", [880, -1000]))
+            dw2 = list_value(spec.get("DW2", [880, -1000]))
+            if len(dw2) == 2:
+                (vy, w) = (num_value(dw2[0]), num_value(dw2[1]))
+            else:
+                (vy, w) = (880, -1000)
             self.default_disp = (None, vy)
             widths: Dict[Union[str, int], float] = {
                 cid: w for (cid, (w, _)) in widths2.items()
